@@ -189,6 +189,10 @@ fn generated(ds: &DS, o: &Oracle, geom: Geometries, name: &str) -> Result<Vec<(V
         ensure!(sign_ok, "{}: item {} = {} has curvature {}", name, n + 1, sym.text(), k);
         out.push((o.key(ds, &vs), sym));
     }
+    // iterator protocol: nth / skip / step_by / take / last / count agree with repeated next(), counters included
+    if out.len() <= 400 {
+        crate::util::iter_protocol(|| DSyms::new(&set, geom), |s| format!("{}", s), 6, name)?;
+    }
     // pairwise non-isomorphic as symbols
     let mut seen: BTreeMap<Vec<usize>, &DS> = BTreeMap::new();
     for (_, sym) in &out {
